@@ -119,6 +119,11 @@ impl EventSource for Timer {
             if registration.token != token {
                 return Ok(PostAction::Continue);
             }
+            // If the current arming is still in the wheel, this event was collected for a
+            // previous arming, before the timer was re-registered during this dispatch.
+            if registration.wheel.borrow().contains(registration.counter) {
+                return Ok(PostAction::Continue);
+            }
             let new_deadline = match callback(*deadline, &mut ()) {
                 TimeoutAction::Drop => return Ok(PostAction::Remove),
                 TimeoutAction::ToInstant(instant) => instant,
@@ -231,6 +236,10 @@ impl TimerWheel {
             token,
             counter,
         });
+    }
+
+    pub(crate) fn contains(&self, counter: u32) -> bool {
+        self.heap.iter().any(|data| data.counter == counter)
     }
 
     pub(crate) fn cancel(&mut self, counter: u32) {
